@@ -101,7 +101,7 @@ theorem decFrom_sim (hnn : ∀ ty b v, r.dec ty b = .ok v → v ≠ .none)
         σ1.bufs = σ.bufs ∧ (∀ n, n ≠ localName f → σ1.get n = σ.get n) := by
       cases hc : f.cond with
       | none =>
-        obtain ⟨σ1, h1, h2, h3, h4, h5⟩ := plain_sim hS (fun n hn => lookupField_hid hn) hnn (by rw [hq]; rfl) hc hfresh hne hvf
+        obtain ⟨σ1, h1, h2, h3, h4, h5⟩ := plain_sim hS hnn (by rw [hq]; rfl) hc hfresh hne (fun n hn => lookupField_hid (hvf n hn))
           hwf.1 hgk (hsm f hfd) (hreb st idx) hstep
         exact ⟨σ1, h1, h2, by rw [h3]; exact hq, h4, h5⟩
       | some c =>
@@ -109,7 +109,7 @@ theorem decFrom_sim (hnn : ∀ ty b v, r.dec ty b = .ok v → v ≠ .none)
         have hcc := hcov.1
         unfold condCovered at hcc
         simp only [hc, hsome, if_true] at hcc
-        obtain ⟨σ1, h1, h2, h3, h4, h5⟩ := cond_sim hS (fun n hn => lookupField_hid hn) hnn hc hfresh hne hvf hwf.1 hgk hgc hcc (hsm f hfd) (hreb st idx) hstep
+        obtain ⟨σ1, h1, h2, h3, h4, h5⟩ := cond_sim hS hnn hc hfresh hne (fun n hn => lookupField_hid (hvf n hn)) hwf.1 hgk hgc hcc (hsm f hfd) (hreb st idx) hstep
         exact ⟨σ1, h1, h2, by rw [h3]; exact hq, h4, h5⟩
     obtain ⟨σ1, hex1, hS1, hq1, hb1, hf1⟩ := h1
     obtain ⟨σ2, hex2, hS2, hq2, hb2, hf2⟩ := ih (pre ++ [f]) post σ1 st1 st' (idx + 1) (by rw [hsplit]; simp)
